@@ -116,6 +116,15 @@ def run (args : List String) : Option String :=
     let (fwd, rest) := extractOutputGeoboxParams kvs
     let f := fun (l : List (String × String)) => fmtList id (sortStr (l.map (fun kv => kv.1 ++ "=" ++ kv.2)))
     pure s!"{f fwd} {f rest}"
+  | ["rta", src, nt, nb, cn, ops] => do
+    -- wrap_xr(crs_coord_name=None) then .odc.assign_crs(crs, cn), then the history
+    let s ← parseSrc? src
+    let nt ← parseOpt? parseNat? nt; let nb ← parseOpt? parseNat? nb
+    let ops ← parseList? parseOp? ops
+    let crs ← (match s with | .lin g => g.crs | .gcp g => g.crs)
+    pure (fmtRes fmtArr (match wrapNoName s nt nb [] with
+      | .error e => .error e
+      | .ok a => applyOps (assignCrs a crs cn) ops))
   | ["rt", src, nt, nb, cn, ops] => do
     let r ← build src nt nb cn ops "[]"
     pure (fmtRes fmtArr r)
